@@ -69,6 +69,23 @@ class _Sub(ast.NodeTransformer):
 
     depth = 0
 
+    def visit_Attribute(self, n: ast.Attribute) -> ast.AST:
+        # projection of a constant record display (a folded NamedTuple / dataclass constant, see c14._module_value): `rec.field`
+        self.generic_visit(n)
+        fields = getattr(n.value, '_c14_fields', None)
+        if isinstance(n.value, ast.Tuple) and fields and n.attr in fields and isinstance(n.ctx, ast.Load):
+            return copy.deepcopy(n.value.elts[fields.index(n.attr)])
+        return n
+
+    def visit_Subscript(self, n: ast.Subscript) -> ast.AST:
+        # projection of a constant tuple display: `(a, b)[0]`
+        self.generic_visit(n)
+        if isinstance(n.value, ast.Tuple) and isinstance(n.ctx, ast.Load) and isinstance(n.slice, ast.Constant) and isinstance(n.slice.value, int) \
+                and not isinstance(n.slice.value, bool) and -len(n.value.elts) <= n.slice.value < len(n.value.elts) \
+                and not any(isinstance(x, ast.Starred) for x in n.value.elts) and any(isinstance(x, ast.Lambda) or hasattr(n.value, '_c14_fields') for x in n.value.elts):
+            return copy.deepcopy(n.value.elts[n.slice.value])
+        return n
+
     def _shadow(self, node: ast.AST, targets: T.Iterable[ast.AST]) -> ast.AST:
         bound = set()
         for t in targets:
